@@ -10,7 +10,7 @@ CONSTANTS
   MaxBatchOps = 0
   Stops = {0, 1, 2}
   Muts = {TRUE}
-  Ops = {"Get", "Has", "Set", "Delete", "DeletePrefix", "Clear", "Flush", "Close", "Realm", "Batched", "Iterate", "IterateKeys", "WithRealm", "WithExtendedRealm", "BSet", "BDelete", "Cancel", "Commit"}
+  Ops = {"Get", "Has", "Set", "Delete", "DeletePrefix", "Clear", "Flush", "Close", "Realm", "Batched", "Iterate", "IterMut", "IterateKeys", "WithRealm", "WithExtendedRealm", "BSet", "BDelete", "Cancel", "Commit"}
 VIEW View
 INVARIANTS TypeOK ClosedOK NotClosedOK GetOK HasOK SetOK IterOK StOK
-PROPERTIES Isolation ReadOnly DeleteExact SetDelete BatchLastOp CancelNothing
+PROPERTIES Isolation ReadOnly DeleteExact SetDelete BatchLastOp CancelNothing IterSnapshot
